@@ -447,9 +447,25 @@ func main() {
 		if err != nil || refgeom.Struct(got) != refgeom.Struct(norm) {
 			cl := "respell"
 			if _, isCol := norm.(orb.Collection); isCol && len(chosen) > 0 {
+				// the recorded finding is about three places only: between the GEOMETRYCOLLECTION keyword and its
+				// parenthesis, right after that parenthesis, and right after a comma that separates two members (white
+				// space anywhere else inside a collection - before a member comma, inside a member - parses)
 				inner := false
 				for _, in := range chosen {
-					if in.pos > 0 && in.pos < len(text) {
+					if in.pos <= 0 || in.pos >= len(text) {
+						continue
+					}
+					depth := 0
+					for _, ch := range text[:in.pos] {
+						if ch == '(' {
+							depth++
+						} else if ch == ')' {
+							depth--
+						}
+					}
+					pv, nx := text[in.pos-1], text[in.pos]
+					letter := func(b byte) bool { return b >= 'A' && b <= 'Z' }
+					if (depth == 1 && (pv == '(' || pv == ',') && letter(nx)) || (depth == 0 && letter(pv) && nx == '(') {
 						inner = true
 					}
 				}
